@@ -160,8 +160,31 @@ def judge_raire(case):
     return out
 
 
+def judge_raire_many(ncon):
+    """a file that declares ncon contests (two-digit counts included); ballots in the first, a middle and the last contest"""
+    rows = [[str(ncon)]] + [["Contest", f"k{j}", "2", "x", "y"] for j in range(ncon)]
+    rows += [["k0", "b1", "x", "y"], [f"k{ncon // 2}", "b1", "y"], [f"k{ncon - 1}", "b2", "y", "x"]]
+    want = {"b1": {"k0": {"x": 1, "y": 2}, f"k{ncon // 2}": {"y": 1}}, "b2": {f"k{ncon - 1}": {"y": 1, "x": 2}}}
+    if ncon // 2 == 0:
+        want["b1"] = {"k0": {"y": 1}}
+    try:
+        got, n = CVR.from_raire(rows)
+    except Exception as e:  # noqa
+        return [(f"C18|from_raire|exception|{type(e).__name__}", f"{ncon} declared contests: {type(e).__name__}: {str(e)[:80]}")]
+    if [c.id for c in got] != list(want) or any(c.votes != want[c.id] for c in got):
+        return [("C18|from_raire|header-lines", f"{ncon} declared contests: cards {[(c.id, c.votes) for c in got][:4]}, expected {want}")]
+    return []
+
+
 def run_shard(sh, rec):
     if sh[0] == "raire":
+        for ncon in range(1, 26):
+            rec.state()
+            rec.trans()
+            rec.evals()
+            rec.vac("raire_inputs")
+            for key, what in judge_raire_many(ncon):
+                rec.violate(key, what, {"kind": "raire-many", "ncon": ncon})
         for case in raire_cases():
             rec.state()
             rec.trans()
@@ -213,6 +236,8 @@ def explore(tier, seed):
 
 
 def run_case(case):
+    if case["kind"] == "raire-many":
+        return judge_raire_many(case["ncon"])
     if case["kind"] == "raire":
         return judge_raire(case)
     return judge([(r[0], tuple(r[1]), r[2], r[3], r[4]) for r in case["records"]])
